@@ -6,6 +6,7 @@
 //   genm3 list                 -> one line per generated zone
 //   genm3 sweep                -> every zone x every year 1998..2052 x four instants, fresh processor per year,
 //                                 then one processor walking the years up and down (cumulative high-water mark)
+// The bound is asserted for every year whose fill the processor accepts; a rejected year never touches the pool.
 //   genm3 one <x|b> <name> <year>
 #include <AceTime.h>
 #include <stdio.h>
@@ -53,10 +54,11 @@ static void askExtended(ExtendedZoneProcessor& proc, const extended::ZoneInfo* i
     (void)tz.getOffsetDateTime(ldt);
     int hw = proc.getTransitionHighWater();
     g_checks++;
-    if (year >= 2000 && year < 2050 && (hw >= recorded || hw >= kCapacity)) {
+    // every year whose fill the processor accepts counts (startYear-1 .. untilYear: the mark only moves when a fill ran)
+    if (hw >= recorded || hw >= kCapacity) {
       char buf[160];
       snprintf(buf, sizeof buf, "highWater=%d recorded_transitionBufSize=%d capacity=%d %s", hw, recorded, kCapacity,
-          freshMark ? "(fresh processor)" : "(one processor, years walked in sequence)");
+          freshMark ? "(fresh processor)" : "(one processor, years walked in sequence: the mark is cumulative, the fill that raised it may be an earlier year's)");
       violation("x", info->name, year, buf);
       return;
     }
